@@ -375,13 +375,13 @@ class Lark(Serialize, Generic[_Return_T]):
                         # Remove options that aren't relevant for loading from cache
                         for name in (set(options) - _LOAD_ALLOWED_OPTIONS):
                             del options[name]
-                        # Header line: <sha256 of grammar+options> <payload size> <sha256 of payload>
+                        # Header line: <sha256 of grammar+options> <payload size> <sha256 of the former + payload>
                         header = f.readline().rstrip(b'\n').split(b' ')
                         if len(header) == 3 and header[0] == cache_sha256.encode('utf8') and header[1].isdigit():
                             payload = f.read(int(header[1]))
                             # Verify the payload before unpickling any of it, so that a damaged file,
-                            # or one that several processes wrote at once, is never served
-                            if sha256_digest(payload).encode('utf8') == header[2] and not f.read(1):
+                            # or one that another process rewrites while we read it, is never served
+                            if sha256_digest(header[0] + payload).encode('utf8') == header[2] and not f.read(1):
                                 payload_f = BytesIO(payload)
                                 cached_used_files = pickle.load(payload_f)
                                 if verify_used_files(cached_used_files):
@@ -497,7 +497,8 @@ class Lark(Serialize, Generic[_Return_T]):
                     pickle.dump(used_files, payload_f)
                     self.save(payload_f, _LOAD_ALLOWED_OPTIONS)
                     payload = payload_f.getvalue()
-                    f.write(b'%s %d %s\n' % (cache_sha256.encode('utf8'), len(payload), sha256_digest(payload).encode('utf8')))
+                    key = cache_sha256.encode('utf8')
+                    f.write(b'%s %d %s\n' % (key, len(payload), sha256_digest(key + payload).encode('utf8')))
                     f.write(payload)
             except IOError as e:
                 logger.exception("Failed to save Lark to cache: %r.", cache_fn, e)
